@@ -196,7 +196,7 @@ func replayMain(file string) int {
 			var nr nativeResult
 			if json.Unmarshal([]byte(line[i+len("VERIF-NATIVE "):]), &nr) == nil {
 				fmt.Printf("  native: result=%s failed=%v msg=%s\n", nr.Result, nr.Failed, nr.Msg)
-				hit := nr.Result == "panic" && rf.Kind == "panic"
+				hit := (nr.Result == "panic" && rf.Kind == "panic") || (nr.Result == "timeout" && rf.Kind == "hang")
 				for _, l := range nr.Failed {
 					if l == rf.Label {
 						hit = true
